@@ -434,6 +434,10 @@ async fn run(plan: &SessionPlan, cx: &mut Cx) -> Res {
     // the side under test
     let result: Rc<RefCell<Option<SutResult>>> = Rc::new(RefCell::new(None));
     let accept = plan.accept;
+    // the document the accept callback allowed a session for / the document the acceptor names afterwards
+    let allowed: Rc<std::cell::Cell<Option<iroh_docs::NamespaceId>>> = Rc::new(std::cell::Cell::new(None));
+    let known_ns: Rc<std::cell::Cell<Option<iroh_docs::NamespaceId>>> = Rc::new(std::cell::Cell::new(None));
+    let (allowed_c, known_c) = (allowed.clone(), known_ns.clone());
     let sut_task = {
         let result = result.clone();
         let h = sut_handle.clone();
@@ -446,15 +450,20 @@ async fn run(plan: &SessionPlan, cx: &mut Cx) -> Res {
         } else {
             tokio::task::spawn_local(async move {
                 let mut st = BobState::new(other_peer_id);
+                let allowed2 = allowed.clone();
                 let r = st
-                    .run(s2p_w, p2s_r, h, move |_ns, _peer| {
+                    .run(s2p_w, p2s_r, h, move |ns, _peer| {
+                        if accept == 0 {
+                            allowed2.set(Some(ns));
+                        }
                         std::future::ready(match accept {
                             0 => AcceptOutcome::Allow,
                             r => AcceptOutcome::Reject(reason_of(r - 1)),
                         })
                     })
                     .await;
-                // as handle_connection does: the outcome is collected whatever `run` returned
+                // as handle_connection does: the document and the outcome are collected whatever `run` returned
+                known_ns.set(st.namespace());
                 let outcome = st.into_outcome();
                 *result.borrow_mut() = Some(SutResult::Bob(r, outcome));
             })
@@ -770,6 +779,14 @@ async fn run(plan: &SessionPlan, cx: &mut Cx) -> Res {
         SutResult::Alice(r) => (r.is_ok(), false),
         SutResult::Bob(r, _) => (r.is_ok(), matches!(r, Err(AcceptError::Abort { .. }))),
     };
+    // once the accept callback has allowed a session for a document, the acceptor must be able to
+    // say which document its outcome is about, however the session ends (the caller frees the
+    // slot of that document and peer with it)
+    if let (SutResult::Bob(..), Some(ns_allowed)) = (&res, allowed_c.get()) {
+        if known_c.get() != Some(ns_allowed) {
+            return Err(Violation::new("outcome/document-unknown-after-allow", format!("the accept callback allowed a session for the document, the acceptor finished (ok={ok}) but names {:?} as the document of its outcome", known_c.get().map(|n| n.fmt_short().to_string()))));
+        }
+    }
     if let Some(why) = &must_err {
         if ok {
             let side = if plan.sut_is_alice { "initiator" } else { "acceptor" };
